@@ -48,6 +48,18 @@ LgammaTinyNegative(f, x, r) ==
 NearNegInt(f, x, k) == LET d == Dec(f, x)  n == RoundInt(f, x, "even") IN
                        d.s = 1 /\ d.cls = "normal" /\ n # NaNRes /\ ~IsZeroF(f, n) /\ BLe(OrdinalDistance(f, x, n), FromInt(k))
 LgammaNearNegInt(f, x, r) == f.M = 23 /\ NearNegInt(f, x, 16) /\ IsFinite(f, r)
+\*  lgamma-reflection-cancel : float lgamma for -16 < x <= -4 where the exact result is small (|lgamma x| < 4, i.e. next to the two zero
+\*                   crossings |Gamma(x)| = 1 of every interval (-n-1, -n)): the reflection formula subtracts two terms of magnitude about
+\*                   lgamma|x| = 6 .. 28, each good to an ulp of ITS size, so the absolute error is up to 16 ulp of 1.0 (bound: 8 ulp of
+\*                   max(|result|, 1)); found by the exhaustive float32 selector sweep (worst: lgamma(-7.9999723f), 13.2 ulp).  Classified by
+\*                   the argument range, the size of the exact result AND the absolute error (at most 2^-19 = 16 ulp of 1.0).
+LgammaReflectionCancel(f, x, r, ent) ==
+  LET dx == Dec(f, x)  dr == Dec(f, r)  p == Prec(f) IN
+  /\ f.M = 23 /\ dx.s = 1 /\ dx.cls = "normal" /\ dx.ef \in {Bias(f) + 2, Bias(f) + 3}
+  /\ ent.k = 0 /\ ent.e <= 1 /\ dr.cls \in {"zero", "sub", "normal"}
+  /\ LET diff == IF dr.m = <<>> THEN [m |-> ent.m, e |-> ent.e - p - 7, zero |-> FALSE]
+                  ELSE AddExactP(100000, dr.s, dr.m, dr.e, 1 - ent.s, ent.m, ent.e - p - 7)
+     IN diff.zero \/ CmpScaled(diff.m, diff.e, <<1>>, -19) <= 0
 TgammaPoleFlush(f, x, r) == f.M = 23 /\ NearNegInt(f, x, 16) /\ FLe(f, x, Enc(f, 1, Bias(f) + 5, <<0, 0, 6>>)) /\ IsZeroF(f, r)      \* x <= -33.5
 \*  trig-near-zero : double sin/cos/tan at arguments |x| >= 1 where the exact result is below 2^-40 (tan: or above 2^40), i.e. next to
 \*                   a multiple of pi/2: the three-term Cody-Waite reduction keeps an absolute, not a relative, accuracy
@@ -68,9 +80,11 @@ KnownOf(e, bad) ==
   ELSE LET f == Fm(e.t)
            tiny(i) == LgammaTinyNegative(f, Lane(e.a, e.t, i), Lane(e.r, e.t, i))
            near(i) == LgammaNearNegInt(f, Lane(e.a, e.t, i), Lane(e.r, e.t, i))
+           cancel(i) == e.k = "acc" /\ LgammaReflectionCancel(f, Lane(e.a, e.t, i), Lane(e.r, e.t, i), EntOf(e, i))
        IN
        IF e.op = "lgamma" /\ \A i \in bad : tiny(i) THEN "lgamma-tiny-negative"
        ELSE IF e.op = "lgamma" /\ \A i \in bad : tiny(i) \/ near(i) THEN "lgamma-near-negint"
+       ELSE IF e.op = "lgamma" /\ \A i \in bad : tiny(i) \/ near(i) \/ cancel(i) THEN "lgamma-reflection-cancel"
        ELSE IF e.op = "tgamma" /\ \A i \in bad : TgammaPoleFlush(f, Lane(e.a, e.t, i), Lane(e.r, e.t, i)) THEN "tgamma-pole-flush"
        ELSE IF e.k = "acc" /\ \A i \in bad : TrigNearZero(e.op, f, Lane(e.a, e.t, i), Lane(e.r, e.t, i), EntOf(e, i)) THEN "trig-near-zero"
        ELSE "-"
